@@ -1,4 +1,5 @@
 """C36 -- macroexpand-1 expands one step and macroexpand reaches a fixpoint."""
+import copy
 import sys
 import types
 import warnings
@@ -461,6 +462,59 @@ CORE_FORMS = [
 ]
 
 
+STATEFUL_SRC = """
+(setv _left 0)
+(defmacro poll [x] (global _left) (if (> _left 0) (do (-= _left 1) `(poll ~x)) `(done ~x)))
+(defmacro stub [x] (setv (get _hy_macros "stub") (fn [x] `(real ~x))) `(stub ~x))
+"""
+
+
+def stateful_block(chk, hy, k):
+    """macros with state: `poll` expands to its own call _left times before it changes; `stub` installs the real
+    macro under its own name and re-queues the call.  hy.macroexpand must go on while the head names a macro and
+    equal iterating hy.macroexpand-1."""
+    def fresh():
+        m = types.ModuleType("hvs_%d" % k)
+        sys.modules[m.__name__] = m
+        with warnings.catch_warnings():
+            warnings.simplefilter("ignore")
+            hy.eval(hy.read_many(STATEFUL_SRC), module=m)
+        return m
+    how = "module with: " + STATEFUL_SRC.strip().replace("\n", " ")
+    try:
+        for left in range(0, 5):
+            m = fresh()
+            m._left = left
+            r = hy.macroexpand(hy.read("(poll 7)"), module=m)
+            chk.count("stateful:poll")
+            chk.case("stateful-poll-%d-%d" % (k, left), nontrivial=left > 0,
+                     sample={"macros": STATEFUL_SRC.strip().split("\n"), "_left": left, "input": "(poll 7)"} if (k, left) == (3, 2) else None)
+            if r != hy.read("(done 7)") or m._left != 0:
+                chk.fail("stateful-fixpoint", {"macro": "poll", "_left": left, "input": "(poll 7)"},
+                         "%s with _left=%r afterwards" % (hy.repr(r), m._left), "'(done 7) with _left=0", how + "; (setv _left %d) (hy.macroexpand '(poll 7))" % left)
+            m._left = left
+            cur, seq = hy.read("(poll 7)"), []
+            for _ in range(left + 1):
+                cur = hy.macroexpand_1(cur, module=m)
+                seq.append(hy.repr(cur))
+            want = ["'(poll 7)"] * left + ["'(done 7)"]
+            if seq != want:
+                chk.fail("stateful-expand1", {"macro": "poll", "_left": left, "input": "(poll 7)"}, seq, want, how)
+        m = fresh()
+        r = hy.macroexpand(hy.read("(stub 1)"), module=m)
+        chk.count("stateful:stub")
+        chk.case("stateful-stub-%d" % k, nontrivial=True)
+        if r != hy.read("(real 1)"):
+            chk.fail("stateful-fixpoint", {"macro": "stub", "input": "(stub 1)"}, hy.repr(r), "'(real 1)", how + "; (hy.macroexpand '(stub 1))")
+        m = fresh()
+        a = hy.macroexpand_1(hy.read("(stub 1)"), module=m)
+        b = hy.macroexpand_1(a, module=m)
+        if [hy.repr(a), hy.repr(b)] != ["'(stub 1)", "'(real 1)"]:
+            chk.fail("stateful-expand1", {"macro": "stub", "input": "(stub 1)"}, [hy.repr(a), hy.repr(b)], ["'(stub 1)", "'(real 1)"], how)
+    finally:
+        sys.modules.pop("hvs_%d" % k, None)
+
+
 def run(chk):
     chk.trusted = TRUSTED
     chk.assumptions = [
@@ -524,7 +578,22 @@ def run(chk):
         heap = mcm.coq_list(["(%d%%N, %d%%N)" % (i + 1, p) for i, (_, p) in enumerate(atoms) if p is not None], "(N * N)")
         labels = mcm.coq_list(["%d%%N" % (i + 1) for i in range(len(atoms))], "N")
         p = "w%d" % world.idx
-        exprs.append("observe_expand hcore %s_extra %s_mod %s_defs %d%%N (%s) %s %s" % (p, p, p, BASE, term, heap, labels))
+        # the `macros` argument varies from call to call on the same module: the full dict, None, {}, a part of it
+        view = copy.copy(world)
+        mk = chk.rng.choice(["full", "full", "full", "none", "empty", "part"]) if world.extra else chk.rng.choice(["none", "empty"])
+        if mk == "part" and len(world.extra) >= 2:
+            view.extra = chk.rng.sample(world.extra, chk.rng.randrange(1, len(world.extra)))
+            view.extra_dict = {n: world.extra_dict[n] for n, _ in view.extra}
+            extra_term = mcm.coq_ns(view.extra)
+        elif mk in ("none", "empty"):
+            view.extra, view.extra_dict = [], (None if mk == "none" else {})
+            extra_term = "(@nil (list N * N))"
+        else:
+            mk = "full"
+            extra_term = p + "_extra"
+        chk.count("macros-arg:" + mk)
+        exprs.append("observe_expand hcore %s %s_mod %s_defs %d%%N (%s) %s %s" % (extra_term, p, p, BASE, term, heap, labels))
+        world_full, world = world, view
         obs = []
         for f, nm in ((hy.macroexpand_1, "macroexpand-1"), (hy.macroexpand, "macroexpand")):
             o = make_input(hy, d, regime, bits)
@@ -545,6 +614,9 @@ def run(chk):
             obs.append((nm, o, r, before, after, enc))
         cases.append((world_text(world) if len(cases) % 25 == 0 else world.idx, input_text(d), regime, [(nm, enc) for nm, _, _, _, _, enc in obs]))
         judge_oracle(chk, hy, world, d, regime, bits, obs)
+        world = world_full
+        if k % (per_world * 8) == 3:
+            stateful_block(chk, hy, k)
     if world:
         world.remove()
     core_ns = mcm.coq_ns([(n, mid) for n, mid, _ in CORE])
@@ -552,7 +624,7 @@ def run(chk):
     batch = 100 * per_world         # the model side in batches, each with only its own worlds' definitions
     for b in range(0, len(exprs), batch):
         sub = exprs[b:b + batch]
-        used = sorted({int(e.split("_extra")[0].split(" w")[-1]) for e in sub})
+        used = sorted({int(e.split("_mod")[0].split(" w")[-1]) for e in sub})
         dtext = "".join(world_defs[w] for w in used)
         outs += vlib.coq_eval(["HyV.MacroNS.ExpandEncode"],
                               "Import HyV.Base.Text HyV.MacroNS.ExpandSyntax HyV.MacroNS.ExpandModel HyV.MacroNS.LookupModel.\n"
@@ -622,7 +694,9 @@ def split_outcome(ns):
 
 
 def world_text(world):
-    return {"macros": ["(defmacro %s %s)" % (n, world.lam(mid)) for n, mid in world.modns],
+    md = world.extra_dict
+    return {"macros_argument": "None" if md is None else "{}" if md == {} else "a dict (see macros_arg)",
+            "macros": ["(defmacro %s %s)" % (n, world.lam(mid)) for n, mid in world.modns],
             "macros_arg": {n: "(fn %s)" % world.lam(mid) for n, mid in world.extra}}
 
 
